@@ -366,6 +366,12 @@ class C08(DiffProperty):
             k = total // 2
             cases.append(" ".join(["N", "N", "~", chunks_tok([(0x61, k), list(b" { "), (0x62, total - k - 1), list(b" { { x = 1; } z { } } }\n")])]))
             cases.append(" ".join([cstr(b"[ ] = #"), "N", "~", chunks_tok([[0x5b], (0x61, total), list(b"]\nk=1\n[b]\n")])]))
+        # formats WITHOUT assign character (the name ends at white space): value-less options whose name ends the line,
+        # with names around the path buffer's block sizes (a stale length handed to the value handler reads past the block)
+        for f in (b"{_}  ", b"[x]  ", b"[ ]  ", b"{_}  ;#"):
+            for total in list(range(24, 72, 3)) + list(range(120, 136)) + list(range(184, 200, 2)):
+                cases.append(" ".join([cstr(f), "N", "~", chunks_tok([(0x61, total), list(b" \n")])]))
+                cases.append(" ".join([cstr(f), "N", "~", chunks_tok([(0x62, 3), list(b" v\n"), (0x61, total), list(b"\t")])]))
         # structured + mutated + malformed streams
         for i in range(n):
             f = rng.choice(FORMATS)
